@@ -104,6 +104,11 @@ pub fn run_jobs(jobs: Vec<Value>, cfg: &PoolCfg) -> Vec<Value> {
     results
 }
 
+/// One pass without the confirmation of timed-out jobs (screening: "does this finish quickly at all?").
+pub fn run_jobs_unconfirmed(jobs: Vec<Value>, cfg: &PoolCfg) -> Vec<Value> {
+    run_jobs_once(jobs, cfg)
+}
+
 fn run_jobs_once(jobs: Vec<Value>, cfg: &PoolCfg) -> Vec<Value> {
     let n = jobs.len();
     let results: Arc<Mutex<Vec<Option<Value>>>> = Arc::new(Mutex::new(vec![None; n]));
